@@ -19,12 +19,12 @@ theorem new_ok  (c : α)  : new  c = .ok (s0  c) := by
 
 @[simp] def abs  (s : State α) : Unit := ()
 
-theorem upd_eq   (s : State α) (x : α)  :
+theorem upd_eq   (s : State α) (x : α)   :
     (update  s x).map (abs ) = (constV s.val).upd (abs  s) x := by
   simp only [update, wrap, mapV, binop, constV, abs]; gen_tie
-theorem upd_cfg  (s s' : State α) (x : α) : update  s x = .ok s' → s'.val = s.val := by
+theorem upd_cfg  (s s' : State α) (x : α)  : update  s x = .ok s' → s'.val = s.val := by
   simp only [update, constV]; gen_tie
-theorem last_eq   (s : State α)  : last  s = (constV s.val).last (abs  s) := by
+theorem last_eq   (s : State α)   : last  s = (constV s.val).last (abs  s) := by
   simp only [last, wrap, mapV, binop, constV, abs]; gen_tie
 
 def sim  (c : α)  : Sim (mkView (s0  c) (update ) (last )) (constV c) where
@@ -34,15 +34,15 @@ def sim  (c : α)  : Sim (mkView (s0  c) (update ) (last )) (constV c) where
   init_abs := by rfl
   upd := fun (s : State α) x hs => by
     have h0 : s.val = c := hs
-    have := upd_eq  s x  
+    have := upd_eq  s x   
     (try rw [h0] at this); exact this
   upd_cfg := fun (s : State α) x s' hs h => by
     have h0 : s.val = c := hs
-    have := upd_cfg  s s' x h
+    have := upd_cfg  s s' x  h
     simp_all
   last := fun (s : State α) hs => by
     have h0 : s.val = c := hs
-    have := last_eq  s  
+    have := last_eq  s   
     (try rw [h0] at this); exact this
 
 /-- the Rust text of `Constant`, as translated, and the model agree on every input: same answers, same panics -/
